@@ -170,18 +170,28 @@ func loadConfigs(cf *commonFlags) ([]*Prog, []string, int) {
 	if cf.tier == "thorough" {
 		archs = append(archs, "arm") // 32-bit int; linux/386 does not type-check (syscall.SYS_SETSOCKOPT is undefined there)
 	}
+	if x := os.Getenv("SONICSA_CONFIGS"); x != "" {
+		archs = strings.Split(x, ",")
+	}
 	var progs []*Prog
 	var configs []string
 	for _, a := range archs {
 		p, err := Load(cf.repo, a, nil)
 		if err != nil {
-			fmt.Printf("INFRASTRUCTURE-FAILURE cannot load linux/%s: %v\n", a, err)
+			fmt.Printf("INFRASTRUCTURE-FAILURE cannot load %s: %v\n", cfgName(a), err)
 			return nil, nil, 2
 		}
 		progs = append(progs, p)
-		configs = append(configs, "linux/"+a)
+		configs = append(configs, cfgName(a))
 	}
 	return progs, configs, 0
+}
+
+func cfgName(a string) string {
+	if strings.Contains(a, "/") {
+		return a
+	}
+	return "linux/" + a
 }
 
 func cmdCheck(args []string) int {
